@@ -152,4 +152,9 @@ def finish(ctx, t0, level="other", explanation="", extra_cov=None):
             print(f"  {i.status.upper()} rule={i.rule} key={i.key} at {i.where}: {i.msg}"[:700])
         print(f"VIOLATION property={ctx.prop} replay={vp}")
         return 1
+    # a clean run leaves no replay file of an earlier failing run behind
+    try:
+        os.remove(os.path.join(ev_dir, f"{ctx.prop}.violations.json"))
+    except OSError:
+        pass
     return 0
